@@ -375,6 +375,7 @@ def check_doc(case):
             else:
                 doc.add_license_paragraph(C.LicenseParagraph.create(C.License(e[1], "text")))
         nt = doc_observe(doc, flists, names, "built document", labels)
+        nt = apply_edits(doc, flists, names, case.get("edits"), labels) or nt
         text = doc.dump()
         doc2 = C.Copyright(io.StringIO(text))
         doc_observe(doc2, flists, names, "re-read document %s" % short(text, 200), set())
@@ -388,7 +389,32 @@ def check_doc(case):
         text = "\n".join(chunks)
         doc = C.Copyright(io.StringIO(text))
         nt = doc_observe(doc, flists, names, "document %s" % short(text, 200), labels)
+        nt = apply_edits(doc, flists, names, case.get("edits"), labels) or nt
     return (nt and len(flists) >= 2, sorted(labels))
+
+
+def apply_edits(doc, flists, names, edits, labels):
+    """The same document object is queried again after each change to it: which paragraph a name
+    resolves to is a function of the current pattern lists only, not of earlier answers."""
+    nt = False
+    if not isinstance(edits, list):
+        return nt
+    for k, e in enumerate(edits):
+        if not (isinstance(e, list) and len(e) >= 2):
+            continue
+        if e[0] == "files" and len(e) == 3 and isinstance(e[1], int) and _is_pattern_list(e[2]):
+            i = e[1] % len(flists)
+            list(doc.all_files_paragraphs())[i].files = tuple(e[2])
+            flists[i] = list(e[2])
+            labels.add("doc-edit:files-reassigned")
+        elif e[0] == "add" and _is_pattern_list(e[1]):
+            doc.add_files_paragraph(new_para(e[1]))
+            flists.append(list(e[1]))
+            labels.add("doc-edit:paragraph-added")
+        else:
+            continue
+        nt = doc_observe(doc, flists, names, "document after edit %d %r" % (k, e), labels) or nt
+    return nt
 
 
 def doc_observe(doc, flists, names, where, labels):
@@ -486,6 +512,14 @@ def enum_docs():
             for k, name in enumerate(names):
                 yield {"kind": "doc", "via": "dump" if k % 2 == 0 else "text",
                        "paras": paras, "names": [name]}
+    # two paragraphs, every name asked, then one paragraph's list replaced and every name asked again
+    for combo in itertools.product(pats, repeat=2):
+        paras = [["F", [p], [" "]] for p in combo]
+        for which in (0, 1):
+            for newp in pats:
+                if newp != combo[which]:
+                    yield {"kind": "doc", "via": "dump" if which else "text", "paras": paras,
+                           "names": names, "edits": [["files", which, [newp]]]}
 
 
 # ------------------------------------------------------------------------------------------
@@ -633,8 +667,26 @@ def gen_doc(draw):
     if draw(st.integers(0, 3)) == 0:
         paras.append(["L", "Z"])
     n = draw(st.integers(1, 5))
-    return {"kind": "doc", "via": via, "paras": paras,
-            "names": [derived_name(draw, lists) for _ in range(n)]}
+    names = [derived_name(draw, lists) for _ in range(n)]
+    edits = []
+    for _ in range(draw(st.sampled_from([0, 0, 1, 2, 3]))):
+        how = draw(st.integers(0, 5))
+        if how == 0:
+            pl = ["*"]
+        elif how in (1, 2):
+            pl = join(lists[draw(st.integers(0, len(lists) - 1))])       # another paragraph's list
+        else:
+            tl = draw(gen_list_tokens(maxpat=2))
+            pl = join([[t for t in p if not (t[0] == "\\" and t not in ("\\*", "\\?", "\\\\"))] or ["a"]
+                       for p in tl])
+        if draw(st.integers(0, 3)) == 0:
+            edits.append(["add", pl])
+        else:
+            edits.append(["files", draw(st.integers(0, 3)), pl])
+    case = {"kind": "doc", "via": via, "paras": paras, "names": names}
+    if edits:
+        case["edits"] = edits
+    return case
 
 
 def sources(tier):
